@@ -1645,7 +1645,12 @@ where
                 // But since the cluster is chatting about us possibly being
                 // down, we'll send a few updates around in order to help
                 // disseminate the refutation
-                self.gossip(runtime)?;
+                // Unless we already are down (left the cluster or were
+                // declared so): refuting would keep a dead identity alive
+                // in the eyes of whoever hasn't learned about it yet
+                if self.connection_state != ConnectionState::Undead {
+                    self.gossip(runtime)?;
+                }
             }
             State::Alive => {
                 // The cluster is talking about our liveness. Nothing to do.
